@@ -238,6 +238,8 @@ v("C17", "half-open-success-keeps-the-count", RT, "\tcb.failures = 0\n\tcb.state
 v("C18", "leader-id-stored-only-when-cache-differs", KV, "\te.leaderID.Store(id)\n\te.revision.Store(rev)\n}", "\tif e.lastTransition.Load() != nil {\n\t\te.leaderID.Store(id)\n\t}\n\te.revision.Store(rev)\n}", ["C18-R5"], "the observed leader id is stored only under a condition on other state of the election")
 v("C20", "append-to-shared-slice", KV, "func (e *kvElection) getMetricsLabels() prometheus.Labels {", "func (e *kvElection) sharedFields() []string {\n\te.mu.RLock()\n\tfields := e.cfgFields\n\te.mu.RUnlock()\n\treturn append(fields, e.key)\n}\n\nfunc (e *kvElection) getMetricsLabels() prometheus.Labels {", ["C20-R4"], "append to a slice kept in the election object", also=[("\ttermCtx context.Context\n\n", "\ttermCtx context.Context\n\tcfgFields []string\n\n")])
 
+v("C13", "takeover-uses-entry-without-nil-test", KV, "\tif entry == nil {\n\t\t// The adapters answer (nil, nil) for a key that holds no entry: the\n\t\t// record was deleted between the refused Create and this read. There is\n\t\t// nothing to preempt; the caller's retry creates the key.\n\t\treturn fmt.Errorf(\"priority takeover skipped: the leadership record is gone\")\n\t}\n", "", ["C13-R7"], "a record deleted between the refused Create and the Get crashes the takeover candidate")
+
 def main():
     only = set(sys.argv[1:])
     work = tempfile.mkdtemp(prefix="mkvariants-")
